@@ -179,7 +179,10 @@ def run_case(pattern, lx, ly, assign, opname, mode="fresh"):
             Y.values[...] = S.ndarray_for(ly, items, fy, "C")
     mx, my = R.build(lx, items, fx), R.build(ly, items, fy)
     want = model(mx, my)
+    xb, yb = X.values.copy(), Y.values.copy()
     status, got = attempt(lambda: impl(X, Y))
+    if status == "ok" and not (np.array_equal(X.values, xb) and np.array_equal(Y.values, yb)):
+        return "fail", dict(case=case, tags=dict(op=opname, kind="operand-changed"), what=f"{opname} with x dims {lx!r}, y dims {ly!r}, values {assign}: the operator changed the entries of an operand (the result is defined in terms of the operands' entries)")
     if decoy_snap is not None and status == "ok":
         if not (np.array_equal(Z.values, decoy_snap[0]) and np.array_equal(W.values, decoy_snap[1])):
             return "fail", dict(case=case, tags=dict(op=opname, kind="unrelated-array-changed"), what=f"{opname} on x, y changed an unrelated array that had earlier been modified in place")
